@@ -1,9 +1,15 @@
 (** * C02 - Launchpad-token solvency: deposit covers every winner; owner gets only surplus.
     Proved: the deposit rule (iff), that the deposit is sized by the conserved total base winners +
     reserved tickets (C12), the entitlement tokens-per-ticket x winning and its splits (C16, C13),
-    and both surplus formulas of the owner withdrawal.  The closed-form cover invariant over all
-    participants after selection is monitored by the oracle and the correspondence (DESIGN.md). *)
-From LP Require Import Proofs.Tactics Proofs.LedgerBase Proofs.Gates Proofs.Frames Proofs.Confirm Proofs.Reserve Proofs.Ledger Proofs.Lock Proofs.Vesting Proofs.Examples.
+    and both surplus formulas of the owner withdrawal; for the variants that pay winners at once
+    (base, nft, mig, ngt before the NFT part): under the cover invariant tokens-per-ticket x
+    remaining winners <= balance a winner's claim cannot fail, pays exactly tokens-per-ticket x
+    winning and keeps the invariant ([C02_claim_covered]); the owner's withdrawal leaves exactly what
+    the remaining winners are owed ([C02_owner_leaves_cover]).  The cover invariant for the locked and
+    vested variants and its establishment at deposit time are monitored by the oracle and the
+    correspondence (DESIGN.md). *)
+From LP Require Import Proofs.Tactics Proofs.LedgerBase Proofs.Gates Proofs.Frames Proofs.Settle Proofs.Confirm Proofs.Reserve Proofs.Ledger
+  Proofs.ClaimLedger Proofs.Lock Proofs.Vesting Proofs.Examples.
 Open Scope N_scope.
 
 (** the single deposit: accepted iff nothing was deposited yet and the call value is exactly one
@@ -58,6 +64,30 @@ Theorem C02_tpt_frozen : forall e w a w',
   is_owner e /\ get_launch_stage e (st w) = AddTickets /\ deposited (st w) = false /\ 0 < a.
 Proof. exact gate_set_tpt. Qed.
 
+(** a winner's (or loser's) claim during the claim period, variants with direct payout *)
+Theorem C02_claim_covered : forall e w A,
+  ClaimInv w A -> CoverInv w -> pay_token (st w) <> lp_token (st w) -> caller e <> sc_addr ->
+  get_launch_stage e (st w) = Claim -> claimed (st w) (caller e) = false ->
+  range (st w) (caller e) <> None ->
+  exists w',
+    claim_launchpad_tokens default_send e w = Ok w' /\ ClaimInv w' A /\ CoverInv w' /\
+    let wins := winning_of (st w) (caller e) in
+    nr_winning (st w') = nr_winning (st w) - wins /\
+    bal w' (caller e) (lp_token (st w)) 0 = bal w (caller e) (lp_token (st w)) 0 + tpt (st w) * wins /\
+    bal w' sc_addr (lp_token (st w)) 0 + tpt (st w) * wins = bal w sc_addr (lp_token (st w)) 0.
+Proof. exact Cover_claim. Qed.
+
+(** the owner's withdrawal takes the surplus only: afterwards the balance is exactly what the
+    winners who have not claimed yet are owed (zero once all have) *)
+Theorem C02_owner_leaves_cover : forall e w w' A,
+  ClaimInv w A -> caller e <> sc_addr -> pay_token (st w) <> lp_token (st w) ->
+  claim_ticket_payment e w = Ok w' ->
+  bal w' sc_addr (lp_token (st w)) 0 = tpt (st w) * nr_winning (st w) /\
+  nr_winning (st w') = nr_winning (st w) /\ tpt (st w') = tpt (st w) /\ lp_token (st w') = lp_token (st w) /\
+  bal w' (caller e) (lp_token (st w)) 0 + tpt (st w) * nr_winning (st w) =
+  bal w (caller e) (lp_token (st w)) 0 + bal w sc_addr (lp_token (st w)) 0.
+Proof. exact Cover_owner. Qed.
+
 Example C02_nonvacuous :
   let w0 := step_sha Base base0 (mkenv 1 1 0 [], 100%nat, [], CAddTickets [(2, 3); (3, 2)]) in
   (exists w r, exec_sha Base (mkenv 1 2 0 [(1, 0, 200)]) 5 [] w0 CDeposit = Ok (w, r)) /\
@@ -73,4 +103,6 @@ Print Assumptions C02_entitlement.
 Print Assumptions C02_owner_surplus_common.
 Print Assumptions C02_owner_surplus_vested.
 Print Assumptions C02_tpt_frozen.
+Print Assumptions C02_claim_covered.
+Print Assumptions C02_owner_leaves_cover.
 Print Assumptions C02_nonvacuous.
